@@ -576,6 +576,79 @@ def run_admin_target(params, known):
                 violations=violations[:3], known=[], samples=[], verdicts={}, report_keys=['verdicts'])
 
 
+def run_two_sources(params, known):
+    """Two confidentiality sources on the path: the bundle's source encrypts an extension block end to end, a gateway
+    that forwards the bundle encrypts the payload (its own policy names the payload only).  What leaves the gateway
+    carries neither plaintext; a destination holding the key recovers both exactly.  Plaintext lengths 0, 16 and 300."""
+    from .. import env as _env
+    _env.load_bp()
+    from bp.app.bpsec import SecAssociation, SecOperation
+    from .c05 import impl_container
+    violations = []
+    kinds = set()
+    keys = set()
+    count = 0
+
+    def viol(kind, detail, case):
+        if kind in kinds:
+            return
+        kinds.add(kind)
+        v = Violation(PROP, 'confidentiality', kind, dict(), '%r: %s' % (case, detail)).as_dict()
+        v['case'] = dict(kind='two-sources', **case)
+        violations.append(v)
+    ivs = [bytes(range(12)), bytes(range(20, 32))]
+    ext_plain = b'secret-extension-data'
+    for length in (0, 16, 300):
+        count += 1
+        case = dict(payload_octets=length)
+        plain = plaintext(length)
+        # the source: encrypts the extension block only
+        src = BpWorld(dict(node_id=SRC, tx_routes=[('.*', 'dtn://gw/', None)]))
+        cose = src.cose()
+        cose.sym_key_store[KID] = sym_key(KEY, ['EncryptOp', 'DecryptOp'], 'A256GCM')
+        cose.sec_assoc.append(SecAssociation(src_pat=re.compile(re.escape(SRC) + '.*'), dst_pat=re.compile('.*'), tgt_blk_types=[195],
+                                             templates=[SecOperation(sec_type='bcb', role='source', priv_key_id=KID, content_iv=list(ivs))]))
+        src.send(impl_container(plain_bundle(length, True)))
+        src.quiesce()
+        if len(src.sent()) != 1 or src.escaped or src.api_errors:
+            viol('source-cannot-apply-confidentiality-block', repr((len(src.sent()), src.escaped[:1], src.api_errors[:1])), case)
+            continue
+        hop1 = src.sent()[0]
+        # the gateway: forwards, and encrypts the payload of what it forwards
+        gw = BpWorld(dict(node_id='dtn://gw/', rx_routes=[('.*', 'forward')], tx_routes=[('.*', 'dtn://next/', None)]))
+        gcose = gw.cose()
+        gcose.sym_key_store[KID] = sym_key(KEY, ['EncryptOp', 'DecryptOp'], 'A256GCM')
+        gcose.sec_assoc.append(SecAssociation(src_pat=re.compile('.*'), dst_pat=re.compile('.*'), tgt_blk_types=[1],
+                                              templates=[SecOperation(sec_type='bcb', role='source', priv_key_id=KID, content_iv=[bytes(range(40, 52))])]))
+        gw.receive(hop1)
+        gw.quiesce()
+        out = [o for o in gw.sent() if not B.decode(o)['primary']['flags'] & B.FLAG_ADMIN]
+        keys.add('two-sources/%d' % length)
+        if gw.escaped or gw.api_errors or len(out) != 1:
+            viol('gateway-does-not-forward-one-bundle', repr((len(out), gw.escaped[:1], gw.api_errors[:1])), case)
+            continue
+        wire = out[0]
+        dec = B.decode(wire)
+        covered = sorted(t for b in dec['blocks'] if b['type'] == B.T_BCB for t in B.dec_asb(b['data'])['targets'])
+        pay = [b for b in dec['blocks'] if b['type'] == 1][0]
+        if length and (pay['data'] == plain or contains_window(wire, plain)):
+            viol('plaintext-on-the-wire', 'the payload leaves the gateway in the clear (confidentiality blocks cover the blocks %r)' % (covered,), case)
+        elif 1 not in covered:
+            viol('no-confidentiality-block-added', 'confidentiality blocks cover the blocks %r, the gateway is to encrypt block 1' % (covered,), case)
+        if contains_window(wire, ext_plain):
+            viol('plaintext-window-on-the-wire', 'the extension block plaintext appears', case)
+        (world, delivered, reasons) = receive(wire, 'right', True)
+        if len(delivered) != 1:
+            viol('receiver-with-key-does-not-deliver', 'reasons %r errors %r' % (reasons, world.api_errors[:1]), case)
+        else:
+            got = [bytes.fromhex(b[2]) for b in delivered[0]['blocks'] if b[0] == 1]
+            ext = [bytes.fromhex(b[2]) for b in delivered[0]['blocks'] if b[0] == 195]
+            if got != [plain] or ext != [ext_plain]:
+                viol('recovered-plaintext-differs', 'payload %r, extension %r' % (got, ext), case)
+    return dict(name=params['name'], evaluations=count, nontrivial_keys=sorted(keys), violations=violations, known=[], samples=[],
+                verdicts={}, report_keys=['verdicts'])
+
+
 def run_key_history(params, known):
     '''One long-lived receiver; before each of three receptions its key under the key identifier is the
     right one, another one, or absent (27 histories).  Each reception is judged on its own: the plaintext
@@ -639,6 +712,7 @@ def run_key_history(params, known):
 def scenarios(tier):
     out = []
     out.append(dict(name='key-history', kind='enum', runner='run_key_history', params=dict(name='key-history'), weight=5))
+    out.append(dict(name='two-sources', kind='enum', runner='run_two_sources', params=dict(name='two-sources'), weight=5))
     out.append(dict(name='admin-record-target', kind='enum', runner='run_admin_target', params=dict(name='admin-record-target'), weight=5))
     out.append(dict(name='bib-and-bcb', kind='enum', runner='run_bib_and_bcb', params=dict(name='bib-and-bcb'), weight=5))
     out.append(dict(name='fragmented', kind='enum', runner='run_fragmented', params=dict(name='fragmented'), weight=5))
@@ -686,8 +760,8 @@ def evidence(tier, seed, scens, results, wall_s):
 
 def replay_case(body, verbose=False):
     case = body['case']
-    if case.get('kind') == 'key-history':
-        res = run_key_history(dict(name='key-history'), None)
+    if case.get('kind') in ('key-history', 'two-sources'):
+        res = (run_key_history if case['kind'] == 'key-history' else run_two_sources)(dict(name=case['kind']), None)
         for v in res['violations']:
             print('%s: %s' % (v['kind'], v['detail'][:400]))
         print('%d histories, %d kinds of violation' % (res['evaluations'], len(res['violations'])))
